@@ -231,6 +231,11 @@ func (b *bigmachineExecutor) addInvocation(inv execInvocation) (bool, error) {
 		}
 		b.invocationDeps[inv.Index][result.invIndex] = true
 	}
+	// Workers must compile the invocation with the driver's view of the
+	// compilation environment (e.g. of which shards are cached), never with
+	// their own: the invocation values carried by tasks are copies made
+	// while the driver was still compiling, so they are not yet frozen.
+	inv.Env.Freeze()
 	b.invocations[inv.Index] = inv
 	return true, nil
 }
